@@ -451,9 +451,9 @@ func init() {
 		},
 		NumCases: func(tier, build string) int {
 			if build == "race" {
-				return 800
+				return 20000
 			}
-			return vf.Tiered(tier, 600, 20000)
+			return vf.Tiered(tier, 600, 400000)
 		},
 		Builds: func(tier string) []string {
 			if tier == "thorough" {
